@@ -494,6 +494,50 @@ HOST_ALLOWED = {
 HOST_MODULES = ('truc::record::type_resolver', 'truc::record::type_name')
 
 
+def only_formatted(b, t):
+    """The result of the call `t` is only ever handed to the formatting machinery (a message), never stored
+    or compared: every use of its destination is a borrow that ends in `fmt::rt::Argument::new_*`."""
+    if t['dest']['p'] or t['t'] is None:
+        return False
+    frontier = {t['dest']['l']}
+    seen = set()
+    for _ in range(8):
+        nxt = set()
+        for l in frontier:
+            if l in seen:
+                continue
+            seen.add(l)
+            for bb, si, st in b.statements():
+                if st['k'] != 'assign':
+                    continue
+                rv = st['rv']
+                used = False
+                for k in ('op', 'l', 'r', 'o'):
+                    if k in rv and op_place(rv[k]) and op_place(rv[k])['l'] == l:
+                        used = True
+                if 'place' in rv and rv['place']['l'] == l:
+                    used = True
+                if rv['k'] == 'aggregate' and any(op_place(f) and op_place(f)['l'] == l for f in rv['fields']):
+                    used = True
+                if used:
+                    if st['place']['p'] or rv['k'] not in ('use', 'ref', 'aggregate', 'copy_for_deref'):
+                        return False
+                    nxt.add(st['place']['l'])
+            for bb, tt in b.calls():
+                if any(op_place(a) and op_place(a)['l'] == l for a in tt['args']):
+                    cp = callee_path(tt) or ''
+                    if not cp.startswith('core::fmt::rt::Argument'):
+                        return False
+            for blk in b.blocks:
+                tm = blk['term']
+                if tm['k'] == 'switch' and op_place(tm['d']) and op_place(tm['d'])['l'] == l:
+                    return False
+        frontier = nxt - seen
+        if not frontier:
+            break
+    return True
+
+
 def truc_rule_host(ctx, crate):
     """H-HOST: the host's own layout / type names are queried only inside the resolver and
     name-printer modules (where the host resolver and the table registration live)."""
@@ -506,8 +550,10 @@ def truc_rule_host(ctx, crate):
                 mod = b.module or ''
                 if any(mod == m or mod.startswith(m + '::') for m in HOST_MODULES):
                     ctx.inst('H-HOST', '%s::<%s> in %s (resolver / name printer module)' % (p, ','.join(tys), owner))
-                elif owner == T + 'RecordDefinition::<truc::record::definition::NativeDatumDetails>::max_type_align' and p == 'core::mem::align_of' and tys == ['()']:
-                    ctx.inst('H-HOST', 'align_of::<()> in max_type_align (neutral element for an empty definition)')
+                elif p in ('core::mem::align_of', 'core::mem::size_of') and tys == ['()']:
+                    ctx.inst('H-HOST', '%s::<()> in %s (a constant: neutral element for an empty definition)' % (p.split('::')[-1], owner.split('::')[-1]))
+                elif p == 'core::any::type_name' and only_formatted(b, t):
+                    ctx.inst('H-HOST', 'type_name::<%s> in %s feeds a message only' % (','.join(tys), owner.split('::')[-1]))
                 else:
                     ctx.add(['C18'], 'H-HOST', owner, '`%s::<%s>` is called at %s, outside the type resolver module: the host\'s own layout leaks into the definition instead of the resolver\'s answer' % (p, ','.join(tys), fmt_span(t['span'])), key='%s|%s' % (owner, p))
     ctx.floor(['C18'], 'H-HOST', 5)
